@@ -17,6 +17,11 @@ Scenario: two values.  value ::= :b 0|1 | :i <ty 0..5> <z> | :d <bits> <tolbits>
               (andReturnValue / the C table's andReturnXValue nA times) | :data / :datac ONE slot of mock().setData / mock_c()->setXData (nA times under one name)
      object A (in the box) receives the nA values in order, object B (a MockNamedValue) the nB values; A is read through the 13
      accessors of the family (:nv for :named and :data; for :ret / :retc also the ten call families) and compared with B both ways
+  or value objects whose EARLIER life was a custom-type object (comparator_ / copier_ left in the object):
+  :st <box> <cmpmask> <copmask> <nA> <store>*nA <nB> <store>*nB     box :named | :data | :datac, read through the MockNamedValue getters
+     store    <value> | :o <type 0..2> <const 0|1> <object 0..3>   setObjectPointer / setConstObjectPointer (setDataObject / setDataConstObject)
+              of an object of one of three custom types; bit i of cmpmask / copmask: a comparator / copier for type i is installed in the
+              repository; the last store of each object is a built-in value.  Observation as for :ru.
   or by-content values AT THE EDGES OF THEIR REPRESENTATION, through one of three interfaces:
   :em <iface> <arena> <ref> <len> <ref> <len>   memory buffers (ref, len); ref ::= ~ (a NULL pointer; len must be 0) | offset into the arena
   :es <iface> <arena> <ref> <ref>               C strings at ref (the arena is followed by one NUL); ~ = a NULL char pointer
@@ -50,6 +55,12 @@ RULE = ("exhaustive over the 36 integer type pairs x boundary lattice {min, -2^3
         "and compared both ways with (a) a new object holding the last value, (b) a new object holding the EARLIER value, (c) the same "
         "integer in another type on an object that was itself re-used; three stores in a row; the ten call families on a re-used return "
         "value; thorough adds random store sequences up to 4 + 3 long. non-trivial for :ru = some object received more than one store; "
+        "stale members (:st): for every box (MockNamedValue, setData slot C++ / C) x repository state (comparator and copier for all / "
+        "comparators only / copiers only / none / mixed) x earlier life (a const / non-const object of each custom type; an integer then an object; "
+        "two objects of different types; an object then a built-in value) x last built-in value (boundary integers of every type the box takes, "
+        "bool, strings, double, the pointer kinds, buffers) compared both ways with a new object holding the same value / a different value of the "
+        "same type / the same number in another integer type / a value of another kind, and with an object that had the same earlier life; "
+        "also the new object on the left; random histories. non-trivial for :st = some object had a custom-type life; "
         "edges (:em / :es / :ev): for every small arena every ordered pair of {NULL with size 0, every window incl. the empty ones at every offset and "
         "one past the end} through equals, the C++ mock interface and the C table (so: size 0 with NULL on the expectation side / the actual side / "
         "both / neither, the same object on both sides, same bytes elsewhere); every ordered pair of {NULL, every char pointer} of every small string "
@@ -60,6 +71,7 @@ ASSUMPTIONS = ["LP64 data model (int 32, long 64, long long 64)", "values are in
                "reads: one expected call with the return value, one matching actual call, the unscoped mock(); defaults of the accessor's own type",
                "re-used objects: little-endian LP64 union layout (first 8 bytes shared by all members, the tolerance in the second 8); "
                "andReturnValue(double) / setData(double) store the default tolerance 0.005",
+               "stale members: custom type names are not built-in type names; the repository does not change between the stores of one scenario",
                "edges: a memory buffer is (NULL, 0) or lies inside an object (a NULL address with a size that is not 0 is no buffer); one expectation with one "
                "parameter, one actual call, the unscoped mock(); on the actual side of a mock interface a double carries no tolerance"]
 LO = [-(1 << 31), 0, -(1 << 63), 0, -(1 << 63), 0]
@@ -371,6 +383,118 @@ def reuse_family(tier, rng):
 
 
 
+# ---- value objects whose earlier life was a custom-type object ----
+ST_BOXES = [":named", ":data", ":datac"]
+ST_MASKS = [(7, 7), (7, 0), (0, 7), (0, 0), (2, 5)]
+
+
+def slen(tag):
+    return 4 if tag == ":o" else vlen(tag)
+
+
+def obj(ty, cst, ob):
+    return ":o %x %x %x" % (ty, 1 if cst else 0, ob)
+
+
+def st_parse(s):
+    """(box, cmpmask, copmask, [A's stores as token lists], [B's stores])"""
+    t = s.split()
+    i = 4
+    lists = []
+    for _ in range(2):
+        n = int(t[i], 16); i += 1
+        l = []
+        for _ in range(n):
+            k = slen(t[i]); l.append(t[i:i + k]); i += k
+        lists.append(l)
+    return t[1], int(t[2], 16), int(t[3], 16), lists[0], lists[1]
+
+
+def stl(box, cm, pm, a, b):
+    return ":st %s %x %x %x %s %x %s" % (box, cm, pm, len(a), " ".join(a), len(b), " ".join(b))
+
+
+def st_has_object(l):
+    return any(v[0] == ":o" for v in l)
+
+
+def different_value(v):
+    t = v.split()
+    if t[0] == ":i":
+        ty, z = int(t[1], 16), int(t[2], 16)
+        return ival(ty, z + 1 if z < HI[ty] else z - 1)
+    if t[0] == ":b":
+        return ":b %d" % (1 - int(t[1], 16))
+    if t[0] == ":s":
+        return ":s $6163" if t[1] != "$6163" else ":s $61"
+    if t[0] == ":d":
+        return dval(0x4024000000000000, int(t[2], 16))
+    if t[0] == ":m":
+        return ":m $0103" if t[1] != "$0103" else ":m $01"
+    return "%s %x" % (t[0], int(t[1], 16) ^ 0x10)
+
+
+def stale_family(tier, rng):
+    out = []
+    quick = tier == "quick"
+    k = 0
+    for box in ST_BOXES:
+        lasts = [ival(0, 5), ival(0, -1), ival(0, 0), ival(0, (1 << 31) - 1), ival(1, 7), ival(1, (1 << 32) - 1), ":b 1", ":b 0", ":s $6162", ":s $",
+                 dval(0x3ff8000000000000), ":p 1000", ":p 0", ":cp 1008", ":f 1010"]
+        if box == ":named":
+            lasts += [ival(2, -(1 << 31) - 1), ival(3, (1 << 32) + 7), ival(4, 1 << 32), ival(4, -1), ival(5, (1 << 64) - 1), ival(5, 1 << 63),
+                      ":m $0102", ":m $", dval(0x3ff0000000000000, 0x3fe0000000000000)]
+        for (cm, pm) in ST_MASKS:
+            lives = [[obj(0, True, 0)], [obj(1, False, 3)], [obj(2, True, 1)], [ival(1, (1 << 32) - 1), obj(2, False, 2)],
+                     [obj(0, False, 1), obj(1, True, 0)], [obj(1, True, 2), obj(0, False, 3)], [obj(0, True, 2), ":b 1"], [obj(1, False, 0), ":s $6162"]]
+            for life in (lives[(cm + pm) % 2::2] if quick and (cm, pm) != (7, 7) else lives):
+                for last in lasts:
+                    k += 1
+                    bs = [[last], [different_value(last)], life + [last], [obj((k + 1) % 3, k % 2 == 0, k % 4), last]]
+                    if last.startswith(":i") and same_number_elsewhere(last, k):
+                        bs.append([same_number_elsewhere(last, k)])
+                        bs.append(life + [same_number_elsewhere(last, k + 1)])
+                    bs.append([lasts[(k * 7) % len(lasts)]])
+                    if quick and (cm, pm) != (7, 7):
+                        bs = bs[:1] + [bs[1 + k % (len(bs) - 1)]]
+                    for b in bs:
+                        out.append(stl(box, cm, pm, life + [last], b))
+                    # the new object on the left (object A is always the one in the box)
+                    if k % 3 == 0 and box_takes(box, last):
+                        out.append(stl(box, cm, pm, [last], life + [last]))
+    n = 600 if quick else 40000
+    pool = STALE + LAST_OTHERS
+    for _ in range(n):
+        box = rng.choice(ST_BOXES)
+        cm, pm = rng.randrange(8), rng.randrange(8)
+
+        def rs(b, lastone):
+            c = rng.random()
+            if not lastone and c < 0.5:
+                return obj(rng.randrange(3), rng.random() < 0.5, rng.randrange(4))
+            if c < 0.75:
+                t = rng.randrange(6)
+                z = rng.choice(RLAT) + rng.randrange(-2, 3) if rng.random() < 0.6 else rng.randrange(LO[t], HI[t] + 1)
+                v = ival(t, min(max(z, LO[t]), HI[t]))
+            else:
+                v = rng.choice(pool + LAST_NAMED)
+            return v if box_takes(b, v) else ival(rng.randrange(2), rng.randrange(0, 1 << 31))
+        na = rng.choice([1, 2, 2, 2, 3, 3, 4])
+        a = [rs(box, i == na - 1) for i in range(na)]
+        c = rng.random()
+        if c < 0.4:
+            b = [a[-1]]
+        elif c < 0.6:
+            b = a[:-1] + [a[-1]] if box_takes(":named", a[-1]) else [a[-1]]
+        elif c < 0.8 and a[-1].startswith(":i") and same_number_elsewhere(a[-1]):
+            b = [rs(":named", False) for _ in range(rng.randrange(3))] + [same_number_elsewhere(a[-1], rng.randrange(6))]
+        else:
+            nb = rng.choice([1, 2, 3])
+            b = [rs(":named", i == nb - 1) for i in range(nb)]
+        out.append(stl(box, cm, pm, a, b))
+    return out
+
+
 # ---- by-content values at the edges of their representation ----
 IFACES = [":eq", ":cpp", ":c"]
 
@@ -557,6 +681,7 @@ def generate(tier, rng):
     out += read_family(tier, rng)
     out += reuse_family(tier, rng)
     out += edge_family(tier, rng)
+    out += stale_family(tier, rng)
     n = 3000 if tier == "quick" else 200000
     for _ in range(n):
         t1, t2 = rng.randrange(6), rng.randrange(6)
@@ -592,6 +717,9 @@ def rd_parts(s):
 
 def nontrivial(s):
     t = s.split()
+    if t[0] == ":st":
+        box, cm, pm, a, b = st_parse(s)
+        return st_has_object(a) or st_has_object(b)
     if t[0] == ":ru":
         box, fam, a, b = ru_parse(s)
         return len(a) > 1 or len(b) > 1
@@ -629,8 +757,20 @@ def ru_label(a):
     return "%s stored over %s" % (vkind(a[-1]), vkind(a[-2])) if len(a) > 1 else "a single store"
 
 
+def st_label(l, cm, pm):
+    objs = [v for v in l if v[0] == ":o"]
+    if not objs:
+        return "no custom-type life"
+    ty = int(objs[-1][1], 16)
+    return "custom-type life (comparator %s, copier %s)" % ("installed" if (cm >> ty) & 1 else "absent", "installed" if (pm >> ty) & 1 else "absent")
+
+
 def classify(s):
     t = s.split()
+    if t[0] == ":st":
+        box, cm, pm, a, b = st_parse(s)
+        return ["stale members %s: %s now after %s" % (box, vkind(a[-1]), st_label(a, cm, pm)),
+                "stale members: partner %s after %s" % (vkind(b[-1]), st_label(b, cm, pm))]
     if t[0] == ":ru":
         box, fam, a, b = ru_parse(s)
         return ["re-used %s: %s" % (box, ru_label(a)), "re-used %s read through %s" % (box, fam), "re-used: %d stores / partner %d stores" % (len(a), len(b))]
@@ -654,6 +794,10 @@ def classify(s):
 
 def signature(s, o):
     t = s.split()
+    if t[0] == ":st":
+        box, cm, pm, a, b = st_parse(s)
+        who = {(True, True): "both objects", (True, False): "the object in the box", (False, True): "the partner", (False, False): "neither object"}
+        return "stale members: a built-in value on an object that had a custom-type life (%s)" % who[(st_has_object(a), st_has_object(b))]
     if t[0] == ":ru":
         box, fam, a, b = ru_parse(s)
         return "re-used %s read through %s: %s" % (box, fam, ru_label(a))
@@ -680,6 +824,54 @@ def shrink(s):
     """aliased scenarios: cut unused arena bytes, then shorten the windows; reads: C++ store path, plain default, a stored integer
     of smaller magnitude (boundary values first)"""
     t = s.split()
+    if t[0] == ":st":
+        box, cm, pm, a, b = st_parse(s)
+        a = [" ".join(v) for v in a]; b = [" ".join(v) for v in b]
+        # fewer stores, the plainest box, the partner a new object, fewer installed comparators / copiers, plain objects, smaller numbers
+        if len(b) > 1:
+            yield stl(box, cm, pm, a, b[-1:])
+            yield stl(box, cm, pm, a, b[1:])
+        for i in range(len(a) - 1):
+            yield stl(box, cm, pm, a[:i] + a[i + 1:], b)
+        if box == ":datac":
+            yield stl(":data", cm, pm, a, b)
+        if box != ":named":
+            yield stl(":named", cm, pm, a, b)
+        if b != a[-1:]:
+            yield stl(box, cm, pm, a, a[-1:])
+        if pm:
+            yield stl(box, cm, 0, a, b)
+        for i in range(3):
+            if (cm >> i) & 1:
+                yield stl(box, cm & ~(1 << i), pm, a, b)
+            if (pm >> i) & 1:
+                yield stl(box, cm, pm & ~(1 << i), a, b)
+        for (l, which) in ((a, 0), (b, 1)):
+            for i in range(len(l)):
+                v = l[i].split()
+                if v[0] == ":o" and v[1:] != ["0", "1", "0"]:
+                    ty = int(v[1], 16)
+                    cands = [":o %x 1 0" % ty]
+                    if ty and ((cm >> ty) & 1, (pm >> ty) & 1) == (cm & 1, pm & 1):
+                        cands.append(":o 0 1 0")
+                    for c in cands:
+                        if c != l[i]:
+                            l2 = l[:i] + [c] + l[i + 1:]
+                            yield stl(box, cm, pm, l2, b) if which == 0 else stl(box, cm, pm, a, l2)
+        la, lb = a[-1].split(), b[-1].split()
+        if la[0] == ":i" and lb[0] == ":i" and la[2] == lb[2]:
+            ta, tb_, z = int(la[1], 16), int(lb[1], 16), int(la[2], 16)
+            for c in sorted(set(c for c in RLAT + [7, z // 2] if abs(c) < abs(z) and LO[ta] <= c <= HI[ta] and LO[tb_] <= c <= HI[tb_]), key=abs):
+                yield stl(box, cm, pm, a[:-1] + [ival(ta, c)], b[:-1] + [ival(tb_, c)])
+        for (l, which) in ((a, 0), (b, 1)):
+            for i in range(len(l) - 1, -1, -1):
+                v = l[i].split()
+                if v[0] == ":i":
+                    ty = int(v[1], 16); z = int(v[2], 16)
+                    for c in sorted(set(c for c in RLAT + [7, z // 2] if abs(c) < abs(z) and LO[ty] <= c <= HI[ty]), key=abs):
+                        l2 = l[:i] + [ival(ty, c)] + l[i + 1:]
+                        yield stl(box, cm, pm, l2, b) if which == 0 else stl(box, cm, pm, a, l2)
+        return
     if t[0] == ":ru":
         box, fam, a, b = ru_parse(s)
         a = [" ".join(v) for v in a]; b = [" ".join(v) for v in b]
@@ -830,10 +1022,13 @@ LEVEL_TEXT = ("Machine-checked (Coq) theorems over an executable model of MockNa
               "and every read and both comparisons are proved to be functions of the last store only; by-content values at the edges of their representation "
               "(a buffer given as (NULL, 0) on either side or both, empty windows at any address, the same object on both sides, a NULL char pointer) are run "
               "at ADDRESSES in a memory with no object at 0, through equals, the C++ mock interface and the C table, and proved never to read outside an object "
-              "and to answer by length and content alone (two empty buffers equal whatever the addresses; a null-guarded MemCmp refuted). Tied to the code by an exhaustive lattice + random differential run of the "
+              "and to answer by length and content alone (two empty buffers equal whatever the addresses; a null-guarded MemCmp refuted); value objects whose earlier life was a custom-type object "
+              "(setObjectPointer / setConstObjectPointer, setDataObject on the mock and the C table, with a comparator and / or copier in the repository) carry the stale "
+              "comparator_ / copier_ members in the model's state, and for ANY stale members, repository and user comparator equals and the getters are proved to be "
+              "functions of the last built-in store (a comparator consulted before the built-in types refuted). Tied to the code by an exhaustive lattice + random differential run of the "
               "extracted model against the real class, with the extracted spec evaluated on the implementation's answers.")
 LEVEL_NOTE = ("Trusted: Coq kernel, extraction (ExtrOcamlBasic), the harness and generators, LP64. Modelled not verified: the C++ itself; doubles other "
-              "than NaN are decided by C03's model of doubles_equal; custom-type comparators are outside the model; the accessor forwarding table is "
+              "than NaN are decided by C03's model of doubles_equal; custom-type comparators are in the model only as stale members of an object whose current value is of a built-in type (object-against-object comparison through a comparator is not constrained); the accessor forwarding table is "
               "hand-written and tied to the code by observation (spec constrains integer read-back only; the other accessors are compared with the model); "
               "the union layout of the re-used object (little endian, which bytes each setter writes) is hand-written too, and the harness decides a failed STRCMP_EQUAL "
               "of a getter in a shell of its own (QuietShell: the library's StrCmp, no failure text) for the re-use scenarios; the mock interfaces are modelled as "
